@@ -51,6 +51,7 @@ type FuncSpec struct {
 	Sites     []*SiteSpec
 	Modifies  []string
 	HasMod    bool
+	AlsoMods  []string // "modifies-also": ghost or other components written in addition to what the body's computed write set says
 	Trusted   bool // assumed contract (external or abstracted): body not verified
 	Pure      bool
 	MayPanic  bool
@@ -121,7 +122,7 @@ type SpecDB struct {
 	Errors      []string
 }
 
-var clauseKW = map[string]bool{"guarded": true, "typeinv": true, "functype": true, "func": true, "requires": true, "ensures": true, "modifies": true, "loop": true, "at": true,
+var clauseKW = map[string]bool{"guarded": true, "typeinv": true, "functype": true, "func": true, "requires": true, "ensures": true, "modifies": true, "modifies-also": true, "loop": true, "at": true,
 	"pure": true, "trusted": true, "inline": true, "may-panic": true, "replay:": true, "spec": true, "ghost": true, "field": true,
 	"axiom": true, "lemma": true, "bytes:": true, "safety": true, "noverify": true, "inline-callee": true, "opaque-callee": true, "end": true, "prop": true, "package": true}
 
@@ -274,6 +275,16 @@ func (db *SpecDB) LoadFile(path, pkgPath string) error {
 					cur.Modifies = append(cur.Modifies, m)
 				}
 			}
+		case "modifies-also":
+			if cur == nil {
+				db.errf(path, rc.line, "modifies-also outside func")
+				continue
+			}
+			for _, m := range strings.Split(rest, ",") {
+				if m = strings.TrimSpace(m); m != "" {
+					cur.AlsoMods = append(cur.AlsoMods, m)
+				}
+			}
 		case "loop":
 			if cur == nil || len(fields) < 3 {
 				db.errf(path, rc.line, "bad loop clause")
@@ -371,6 +382,9 @@ func (db *SpecDB) LoadFile(path, pkgPath string) error {
 				// at def(x): where the local variable x is declared (x := ... / var x)
 				ss.Kind = "def"
 				ss.Callee = site[4 : len(site)-1]
+			} else if site == "return" {
+				// at return: every return instruction; result/resultN are the returned values, locals are visible
+				ss.Kind = "return"
 			} else {
 				db.errf(path, rc.line, "unknown site %q", site)
 				continue
